@@ -35,6 +35,7 @@ import (
 	"github.com/anz-bank/sysl/pkg/syslutil"
 	"github.com/anz-bank/sysl/pkg/syslwrapper"
 	"github.com/sirupsen/logrus"
+	"google.golang.org/protobuf/proto"
 	"github.com/spf13/afero"
 )
 
@@ -174,6 +175,14 @@ a%2Fb:
 a :: b:
     E2:
         ...
+SeqProject [seqtitle="%(epname) %(@release)"]:
+    Alpha:
+        Shop <- Ship
+    Mid [groupby="team"]:
+        Shop <- Ship
+        Bank <- Charge
+    Zeta [release="R9", blackboxes=[["Bank <- Charge", "hidden"]]]:
+        Shop <- Ship
 Project [appfmt="%(appname)", epfmt="%(patterns)"]:
     Proj:
         Shop
@@ -229,6 +238,14 @@ func c19Generators(logger *logrus.Logger) []c19Gen {
 			return sequencediagram.GenerateSequenceDiag(m, p, logger)
 		}},
 	}
+	gens = append(gens, c19Gen{"sd-project-views", func(m *sysl.Module) (string, error) {
+		if m.Apps["SeqProject"] == nil {
+			return "", nil
+		}
+		p := &cmdutils.CmdContextParamSeqgen{Output: "%(epname).png", AppsFlag: []string{"SeqProject"}, EndpointFormat: "%(epname)", AppFormat: "%(appname)"}
+		r, err := sequencediagram.DoConstructSequenceDiagrams(p, m, logger)
+		return flattenMap(r), err
+	}})
 	for _, v := range []struct {
 		n         string
 		clustered bool
@@ -323,6 +340,13 @@ func c19OpenAPI3(m *sysl.Module, mode string, logger *logrus.Logger) (string, er
 	return string(b), err
 }
 
+var c19SplitDb = map[string]string{
+	"main.sysl": "import a\nimport b\nimport c\n\nDb:\n    !table Root:\n        id <: int [~pk]\n",
+	"a.sysl":    "Db:\n    !table A1:\n        id <: int [~pk]\n        r <: Root.id\n    !table A2:\n        id <: int [~pk]\n        r <: Root.id\n",
+	"b.sysl":    "Db:\n    !table B1:\n        id <: int [~pk]\n        r <: Root.id\n    !table B2:\n        id <: int [~pk]\n        r <: Root.id\n",
+	"c.sysl":    "Db:\n    !table C1:\n        id <: int [~pk]\n        r <: Root.id\n    !table C2:\n        id <: int [~pk]\n        r <: Root.id\n",
+}
+
 func c19NoDup() string {
 	return strings.Replace(c19Rich, "    !enum Dup:\n        ALPHA: 1\n        BETA: 1\n        GAMMA: 2\n        DELTA: 2\n", "", 1)
 }
@@ -360,6 +384,28 @@ func runC19(res *Result, tier string, rnd *Rand, replay string) {
 		models = append(models, model{fmt.Sprintf("gen%d", i), txt})
 	}
 	gens := c19Generators(logger)
+	// tables of one application spread over imported files, starting on the same source lines
+	func() {
+		mod, err := compileFiles(c19SplitDb, "main.sysl")
+		if err != nil {
+			res.Note("split db model does not compile: %v", err)
+			return
+		}
+		in := map[string]any{"model": "split-db", "files": c19SplitDb}
+		var first string
+		for i := 0; i < reps; i++ {
+			v := database.MakeDatabaseScriptView("t", logger)
+			out := v.GenerateDatabaseScriptCreate(mod.Apps["Db"].GetTypes(), "postgres", "Db")
+			if i == 0 {
+				first = out
+			} else if out != first {
+				res.Violate(Violation{Sig: "nondeterministic:db-create", What: "two runs of db-create on tables spread over imported files give different scripts", Input: in, Got: firstDiffLine(first, out)})
+				break
+			}
+		}
+		res.Eval("split-db\x00db-create", first != "")
+		res.Count("generator:db-create-split")
+	}()
 	// importers and the CLI matrix run beside the in-process generators
 	var bg sync.WaitGroup
 	bg.Add(2)
@@ -381,6 +427,7 @@ func runC19(res *Result, tier string, rnd *Rand, replay string) {
 			var first string
 			var firstErr string
 			differs := false
+			before := proto.Clone(mod)
 			func() {
 				defer Track(in)()
 				defer func() {
@@ -416,6 +463,11 @@ func runC19(res *Result, tier string, rnd *Rand, replay string) {
 					}
 				}
 			}()
+			if !proto.Equal(before, mod) {
+				res.Violate(Violation{Sig: "generator-changes-the-model:" + g.name, What: g.name + " changed the compiled model it was given (a later run on the same model then sees different input)", Input: in})
+				// continue with a fresh copy
+				mod = proto.Clone(before).(*sysl.Module)
+			}
 			res.Eval(md.name+"\x00"+g.name, first != "" && !differs)
 			res.mu.Lock()
 			res.Traces++
@@ -440,6 +492,8 @@ func c19CLI(res *Result, tier string) {
 		cmds := [][]string{
 			{"pb", "--mode", "textpb", "-o", "o.textpb", "m.sysl"}, {"pb", "--mode", "json", "-o", "o.json", "m.sysl"},
 			{"sd", "-s", "Shop <- Ship", "-g", "team", "-o", "sd.puml", "m.sysl"},
+			{"sd", "-a", "SeqProject", "-o", "v_%(epname).puml", "m.sysl"},
+			{"generate-db-scripts", "-a", "Db", "-d", "postgres", "-o", ".", "-t", "split", "main.sysl"},
 			{"ints", "-j", "Project", "-o", "i_%(epname).puml", "m.sysl"},
 			{"ints", "--clustered", "-j", "Project", "-o", "c_%(epname).puml", "m.sysl"},
 			{"ints", "--epa", "-j", "Project", "-o", "e_%(epname).puml", "m.sysl"},
@@ -474,6 +528,9 @@ func c19CLI(res *Result, tier string) {
 					_ = os.MkdirAll(outdir, 0o755)
 					_ = os.WriteFile(filepath.Join(outdir, "m.sysl"), []byte(c19Rich), 0o644)
 					_ = os.WriteFile(filepath.Join(outdir, "nodup.sysl"), []byte(c19NoDup()), 0o644)
+				for fn, fc := range c19SplitDb {
+					_ = os.WriteFile(filepath.Join(outdir, fn), []byte(fc), 0o644)
+				}
 					_ = os.WriteFile(filepath.Join(outdir, "sw2.yaml"), []byte(c19Swagger2Doc), 0o644)
 					_ = os.WriteFile(filepath.Join(outdir, "oa3.yaml"), []byte(c19OpenAPIDoc), 0o644)
 					cmd := exec.Command(bin, c...)
